@@ -113,23 +113,27 @@ type E2EScenario struct {
 	Stall        map[int]bool
 	Interceptors []*CountingInterceptor
 	Topic        string
-	Extra        int // further partitions of the same topic served by the same broker (same log), consumed concurrently
+	// LeaderLoss: the script makes partition 0 lose its leader with failing re-dispatch attempts (Metadata.Retry.Max = 0
+	// so that every attempt is one metadata request)
+	LeaderLoss bool
+	Extra      int // further partitions of the same topic served by the same broker (same log), consumed concurrently
 }
 
 type E2EResult struct {
-	StartErr   error
-	Started    int64 // offset of the first fetch request (-1 if none)
-	HasStarted bool
-	Delivered  []*sarama.ConsumerMessage
-	Complete   bool
-	Closed     bool // the Messages channel was closed by the consumer itself
-	Errs       []error
-	Stalled    []int64 // offsets at which the expiry hook fired
-	Steered    bool
-	ExtraOK    bool
-	Fetches    int
-	CloseHung  bool
-	Resps      [][]int64 // offsets parseResponse must have produced from each data response served for partition 0
+	StartErr       error
+	Started        int64 // offset of the first fetch request (-1 if none)
+	HasStarted     bool
+	Delivered      []*sarama.ConsumerMessage
+	Complete       bool
+	Closed         bool // the Messages channel was closed by the consumer itself
+	Errs           []error
+	Stalled        []int64 // offsets at which the expiry hook fired
+	Steered        bool
+	ExtraOK        bool
+	Fetches        int
+	CloseHung      bool
+	SiblingStalled bool      // a further partition on the same broker stopped receiving although nothing happened to it
+	Resps          [][]int64 // offsets parseResponse must have produced from each data response served for partition 0
 }
 
 type quiet struct{}
@@ -175,18 +179,40 @@ func RunE2E(seed int64, sc E2EScenario) E2EResult {
 	broker := sarama.NewMockBroker(quiet{}, 1)
 	defer broker.Close()
 	l := sc.Gen.Log
-	meta := sarama.NewMockMetadataResponse(quiet{}).SetBroker(broker.Addr(), broker.BrokerID())
+	var mu sync.Mutex
+	metaFailLeft := 0
+	gateOpen := false
+	meta := &sarama.VerifConsumerMetaResponder{F: func(version int16, topics []string) *sarama.MetadataResponse {
+		mu.Lock()
+		defer mu.Unlock()
+		res := &sarama.MetadataResponse{}
+		res.AddBroker(broker.Addr(), broker.BrokerID())
+		replicas := []int32{broker.BrokerID()}
+		for p := int32(0); p <= int32(sc.Extra); p++ {
+			if p == 0 && metaFailLeft > 0 {
+				metaFailLeft--
+				res.AddTopicPartition(sc.Topic, p, -1, replicas, replicas, nil, sarama.ErrLeaderNotAvailable)
+				continue
+			}
+			res.AddTopicPartition(sc.Topic, p, broker.BrokerID(), replicas, replicas, nil, sarama.ErrNoError)
+		}
+		return res
+	}}
 	offs := sarama.NewMockOffsetResponse(quiet{})
 	if sc.KafkaVersion.IsAtLeast(sarama.V0_10_1_0) {
 		offs.SetVersion(1)
 	}
 	for p := int32(0); p <= int32(sc.Extra); p++ {
-		meta.SetLeader(sc.Topic, p, broker.BrokerID())
 		offs.SetOffset(sc.Topic, p, sarama.OffsetOldest, sc.Oldest).SetOffset(sc.Topic, p, sarama.OffsetNewest, l.End())
 	}
-	var mu sync.Mutex
 	step := 0
 	fetches := 0
+	// further partitions are held back at the middle of their log until partition 0 is done, so that they still have
+	// something to receive after whatever happened to partition 0
+	gateOffset := int64(0)
+	if len(l) > 0 {
+		gateOffset = l[len(l)/2].Lo()
+	}
 	started := int64(-1)
 	var resps [][]int64
 	responder := &sarama.VerifConsumerFetchResponder{F: func(info sarama.VerifConsumerFetchInfo) []byte {
@@ -211,6 +237,15 @@ func RunE2E(seed int64, sc E2EScenario) E2EResult {
 				if step < len(sc.Script) {
 					d = sc.Script[step]
 					step++
+					if d.Fault == 1 && d.MetaFail > 0 {
+						metaFailLeft = d.MetaFail
+					}
+				}
+			} else if !gateOpen {
+				if b.Offset >= gateOffset {
+					d = Directive{Fault: 3}
+				} else {
+					d = Directive{Whole: 1}
 				}
 			}
 			switch d.Fault {
@@ -264,6 +299,9 @@ func RunE2E(seed int64, sc E2EScenario) E2EResult {
 	conf.ChannelBufferSize = sc.ChannelBuffer
 	conf.Net.ReadTimeout = 150 * time.Millisecond
 	conf.Metadata.Retry.Backoff = 2 * time.Millisecond
+	if sc.LeaderLoss {
+		conf.Metadata.Retry.Max = 0
+	}
 	if sc.ReadCommitted {
 		conf.Consumer.IsolationLevel = sarama.ReadCommitted
 	}
@@ -284,6 +322,7 @@ func RunE2E(seed int64, sc E2EScenario) E2EResult {
 	// further partitions on the same broker worker, read promptly
 	var wgx sync.WaitGroup
 	extraOK := int32(1)
+	var extraGot, extraDone int64 // messages received by / number of finished further partitions
 	var extras []sarama.PartitionConsumer
 	for p := 1; p <= sc.Extra; p++ {
 		xp, err := master.ConsumePartition(sc.Topic, int32(p), sarama.OffsetOldest)
@@ -301,12 +340,18 @@ func RunE2E(seed int64, sc E2EScenario) E2EResult {
 			defer wgx.Done()
 			want := l.Visible(sc.ReadCommitted, sc.Oldest)
 			i := 0
+			if len(want) == 0 {
+				atomic.AddInt64(&extraDone, 1)
+				return
+			}
 			for m := range xp.Messages() {
 				if i >= len(want) || !SameAsRef(m, want[i]) {
 					atomic.StoreInt32(&extraOK, 0)
 				}
 				i++
+				atomic.AddInt64(&extraGot, 1)
 				if i == len(want) {
+					atomic.AddInt64(&extraDone, 1)
 					break
 				}
 			}
@@ -394,6 +439,23 @@ loop:
 			res.Stalled = append(res.Stalled, off)
 		default:
 			more = false
+		}
+	}
+	// partition 0 is done: let the further partitions have the rest of their log; they must get through it
+	mu.Lock()
+	gateOpen = true
+	mu.Unlock()
+	if len(extras) > 0 {
+		last, lastAt := atomic.LoadInt64(&extraGot), time.Now()
+		for atomic.LoadInt64(&extraDone) < int64(len(extras)) {
+			time.Sleep(5 * time.Millisecond)
+			if g := atomic.LoadInt64(&extraGot); g != last {
+				last, lastAt = g, time.Now()
+			} else if time.Since(lastAt) > idle {
+				res.SiblingStalled = true
+				atomic.AddInt32(&stalledRuns, 1)
+				break
+			}
 		}
 	}
 	// shut down; a consumer whose goroutines died would never close its channels: bounded waits (C12 owns shutdown)
